@@ -53,4 +53,82 @@ mod native {
         }
         assert!(n == 12000 && seen.iter().all(|s| *s), "not every byte value occurred in the hashes tried");
     }
+
+    // BOUNDED second line behind URL/TrackerClient::new/identity_as_given: the tracker client keeps the id and the torrent it is given
+    #[test]
+    fn native_c18_tracker_client_identity() {
+        let d = b"d8:announce3:url4:infod6:lengthi5e4:name1:n12:piece lengthi8e6:pieces20:AAAAAAAAAAAAAAAAAAAAee";
+        for id in [*b"AAAAABBBBBCCCCC12345", *b"00000000000000000000", *b"zzzzzzzzzzZZZZZZZZZZ", *b"-RD0100-abcdefghijkl", *b"a1b2c3d4e5f6g7h8i9j0"] {
+            let m = Metainfo::from_bencode(d).unwrap();
+            let h = *m.info_hash();
+            let (tx, _rx) = mpsc::channel(1);
+            let tc = TrackerClient::new(&id, m, tx);
+            assert!(tc.own_id == id, "tracker client announces as {:?}, the client's id is {:?}", String::from_utf8_lossy(&tc.own_id), String::from_utf8_lossy(&id));
+            assert!(*tc.metainfo.info_hash() == h && tc.metainfo.tracker_url() == "url");
+        }
+    }
+
+    // BOUNDED second line for C18 on the REAL TrackerClient::run (its parameters are under contract in unit URL, what reqwest makes of
+    // them is not): the client is run against a loopback listener that answers the first announce with 503 and the second with a
+    // valid reply; BOTH request lines must go to the announce URL's path, keep the query the URL already had, and carry info_hash
+    // (decoding to the 20 hash bytes), peer_id, port and left (an announce URL whose own query uses one of these names keeps its parameter too).  Four (announce URL, client id, length) combinations.
+    async fn announce_case(tail: &str, own_id: [u8; PEER_ID_SIZE], length: u64) {
+        use tokio::io::{AsyncReadExt, AsyncWriteExt};
+        let listener = tokio::net::TcpListener::bind(("127.0.0.1", 0)).await.unwrap();
+        let announce = format!("http://127.0.0.1:{}{}", listener.local_addr().unwrap().port(), tail);
+        let mut d = format!("d8:announce{}:{}4:infod6:lengthi{}e4:name4:NAME12:piece lengthi64e6:pieces20:", announce.len(), announce, length).into_bytes();
+        d.extend_from_slice(b"AAAAABBBBBCCCCCDDDDDee");
+        let m = Metainfo::from_bencode(&d).unwrap();
+        let hash = *m.info_hash();
+        let (tx, mut rx) = mpsc::channel(8);
+        let mut client = TrackerClient::new(&own_id, m, tx);
+        let job = tokio::spawn(async move { client.run().await });
+        let (want_path, want_query) = match tail.find('?') { Some(p) => (&tail[..p], &tail[p + 1..]), None => (tail, "") };
+        for attempt in 0..2 {
+            let (mut sock, _) = time::timeout(Duration::from_secs(20), listener.accept()).await.expect("no announce arrived").unwrap();
+            let mut buf = vec![];
+            while !buf.windows(4).any(|w| w == b"\r\n\r\n") {
+                let mut chunk = [0u8; 2048];
+                let n = sock.read(&mut chunk).await.unwrap();
+                assert!(n > 0, "connection closed before the request was complete");
+                buf.extend_from_slice(&chunk[..n]);
+            }
+            let head = String::from_utf8_lossy(&buf).to_string();
+            let line = head.lines().next().unwrap().to_string();
+            let target = line.split(' ').nth(1).unwrap().to_string();
+            let (path, query) = match target.find('?') { Some(p) => (&target[..p], &target[p + 1..]), None => (&target[..], "") };
+            assert!(path == want_path, "announce #{}: request path {:?}, announce URL path {:?}", attempt + 1, path, want_path);
+            let pairs: Vec<(&str, &str)> = query.split('&').filter(|x| !x.is_empty()).map(|kv| match kv.find('=') { Some(p) => (&kv[..p], &kv[p + 1..]), None => (kv, "") }).collect();
+            for kv in want_query.split('&').filter(|x| !x.is_empty()) {
+                let (k, v) = match kv.find('=') { Some(p) => (&kv[..p], &kv[p + 1..]), None => (kv, "") };
+                assert!(pairs.iter().any(|(k2, v2)| *k2 == k && *v2 == v), "announce #{}: query parameter {}={} of the announce URL is missing in {:?}", attempt + 1, k, v, target);
+            }
+            let get = |k: &str| -> Vec<&str> { pairs.iter().filter(|(k2, _)| *k2 == k).map(|(_, v)| *v).collect() };
+            let ih = get("info_hash");
+            assert!(ih.iter().any(|v| pct_decode(v).as_deref() == Some(&hash[..])), "announce #{}: no info_hash parameter decodes to the hash: {:?}", attempt + 1, ih);
+            assert!(get("peer_id").contains(&std::str::from_utf8(&own_id).unwrap()), "announce #{}: peer_id {:?}", attempt + 1, get("peer_id"));
+            assert!(get("port").contains(&"6881"), "announce #{}: port {:?}", attempt + 1, get("port"));
+            assert!(get("left").contains(&length.to_string().as_str()), "announce #{}: left {:?}, bytes left {}", attempt + 1, get("left"), length);
+            if attempt == 0 {
+                let _ = sock.write_all(b"HTTP/1.1 503 Service Unavailable\r\nContent-Length: 0\r\nConnection: close\r\n\r\n").await;
+            } else {
+                let body = b"d8:intervali1800e5:peerslee";
+                let _ = sock.write_all(format!("HTTP/1.1 200 OK\r\nContent-Length: {}\r\nConnection: close\r\n\r\n", body.len()).as_bytes()).await;
+                let _ = sock.write_all(body).await;
+            }
+            let _ = sock.shutdown().await;
+        }
+        let _ = time::timeout(Duration::from_secs(5), rx.recv()).await;
+        job.abort();
+    }
+    #[test]
+    fn native_c18_announce_requests_over_loopback() {
+        let rt = tokio::runtime::Builder::new_multi_thread().worker_threads(2).enable_all().build().unwrap();
+        rt.block_on(async {
+            announce_case("/announce", *b"AAAAABBBBBCCCCC12345", 222).await;
+            announce_case("/announce?passkey=abc&support=1", *b"a1b2c3d4e5f6g7h8i9j0", 1).await;
+            announce_case("/Tracker/Announce.php?left=me&port=x", *b"zzzzzzzzzzZZZZZZZZZZ", 4294967296).await;
+            announce_case("/a", *b"00000000000000000000", 64).await;
+        });
+    }
 }
